@@ -16,6 +16,7 @@ import (
 	"github.com/polynetwork/poly/common/config"
 	vconfig "github.com/polynetwork/poly/consensus/vbft/config"
 	"github.com/polynetwork/poly/core/signature"
+	"github.com/polynetwork/poly/core/store"
 	"github.com/polynetwork/poly/core/types"
 	"verifh/kit/ledgerkit"
 	"verifh/kit/vio"
@@ -65,6 +66,21 @@ type world struct {
 	soloCur map[string][]int // solo: ids committed to by the tip's NextBookkeeper, per path ("hdr" / "blk")
 	seq     int
 	padded  bool
+	// result of executing an empty block at the given height (it does not depend on the header, and every
+	// ExecuteBlock call costs a few ms of buffer allocation): computed once per height
+	execH   uint32
+	execRes *store.ExecuteResult
+}
+
+func (w *world) execute(b *types.Block) store.ExecuteResult {
+	if w.execRes == nil || w.execH != b.Header.Height {
+		res, err := w.lg.L.ExecuteBlock(b)
+		if err != nil {
+			vio.Fatal("ExecuteBlock: %v", err)
+		}
+		w.execH, w.execRes = b.Header.Height, &res
+	}
+	return *w.execRes
 }
 
 var worldCount int
@@ -90,6 +106,14 @@ const padHeight = 20000001
 //	vbft/legacy: cond "main-low" (main network, header height <= 20,000,000) or "other-high" (other network, padded index)
 //	vbft/bft:    main network and the header index padded beyond 20,000,000 (hook VerifPadHeaderIndex)
 func openWorld(mode, rule, cond string, n int, rng *vio.RNG) *world {
+	w, err := tryOpenWorld(mode, rule, cond, n, rng)
+	if err != nil {
+		vio.Fatal("open ledger (%s n=%d): %v", mode, n, err)
+	}
+	return w
+}
+
+func tryOpenWorld(mode, rule, cond string, n int, rng *vio.RNG) (*world, error) {
 	worldCount++
 	base := os.Getenv("VERIF_OUT")
 	if base == "" {
@@ -108,7 +132,8 @@ func openWorld(mode, rule, cond string, n int, rng *vio.RNG) *world {
 	}
 	lg, err := ledgerkit.Open(dir, accts, mode == "vbft")
 	if err != nil {
-		vio.Fatal("open ledger (%s n=%d): %v", mode, n, err)
+		os.RemoveAll(dir)
+		return nil, err
 	}
 	w.lg = lg
 	if mode == "vbft" && (rule == "bft" || cond == "other-high") {
@@ -130,7 +155,7 @@ func openWorld(mode, rule, cond string, n int, rng *vio.RNG) *world {
 		w.cond = "main-low"
 	}
 	w.soloCur = map[string][]int{"hdr": seq1(n), "blk": seq1(n)}
-	return w
+	return w, nil
 }
 
 func (w *world) close() {
@@ -286,11 +311,7 @@ func (w *world) build(op string, a absHeader) (*types.Block, common.Uint256, str
 	hdr.Bookkeepers = w.keys(a.Bk)
 	var stateRoot common.Uint256
 	if op == "add" {
-		res, err := l.ExecuteBlock(b)
-		if err != nil {
-			vio.Fatal("ExecuteBlock: %v", err)
-		}
-		stateRoot = res.MerkleRoot
+		stateRoot = w.execute(b).MerkleRoot
 		if !stateRootOK {
 			stateRoot[w.rng.Intn(32)] ^= byte(1 + w.rng.Intn(255))
 		}
@@ -316,15 +337,15 @@ func (w *world) offer(op string, a absHeader, tag string) event {
 	b, stateRoot, how := w.build(op, a)
 	bh0, hh0 := l.GetCurrentBlockHeight(), l.GetCurrentHeaderHeight()
 	var err error
+	var res store.ExecuteResult
+	if op == "sub" {
+		res = w.execute(b)
+	}
 	p := vio.Safe(func() {
 		switch op {
 		case "hdr":
 			err = l.AddHeader(b.Header)
 		case "sub":
-			res, e := l.ExecuteBlock(b)
-			if e != nil {
-				vio.Fatal("ExecuteBlock: %v", e)
-			}
 			err = l.SubmitBlock(b, res)
 		case "add":
 			err = l.AddBlock(b, stateRoot)
@@ -362,6 +383,12 @@ func (w *world) offer(op string, a absHeader, tag string) event {
 	}
 	ev.Obs = w.observed(op)
 	return ev
+}
+
+// syncEvent tells the trace monitor which sets the node really holds (bk: header path, sg: block path); emitted by the
+// random driver after a rejected announcing block so that one defect does not shadow the rest of a long run.
+func (w *world) syncEvent() event {
+	return event{Op: "sync", Mode: w.mode, Rule: w.rule, Bk: w.current("hdr"), Sg: w.current("sub"), Cfg: []int{}, Body: "ok", Obs: []int{0}, N: w.n}
 }
 
 func (w *world) resetEvent(set []int) event {
